@@ -4,8 +4,9 @@ Model/Authorizer — the authorizer state machine (authorizer.go), string level.
 `authorize` follows `(*authorizer).Authorize` (authorizer.go:114-278) in the
 code's own order: load authority facts and rules, run, evaluate the authorizer's
 checks, the authority checks and the policies on the authority-level world,
-reset the rules, then for each later block evaluate that block's checks in a copy
-of the authority-level world extended with the block's facts and rules; collect
+then for each later block evaluate that block's checks in a copy of the
+authority-level facts (without the authority-level rules) extended with the block's
+facts and rules; the authorizer's own world keeps its rules (finding D28); collect
 all check failures; a failure wins over the policy result.
 
 Interning is invisible at this level: a `datalog.String` is the byte string it
@@ -137,7 +138,7 @@ def blockPhase (lim : Limits) (base : List DFact) : List Block → Nat → List 
 /-- What the part of `Authorize` before the block loop computes; it does not mention
 the later blocks. -/
 structure AuthorityPhase where
-  world : World                       -- after the run, rules reset
+  world : World                       -- the facts after the run (what every block world starts from)
   failed : List CheckId               -- authorizer checks then authority checks
   policy : Option PolicyKind
   deriving DecidableEq, Repr
@@ -151,8 +152,9 @@ def authorityPhase (authority : Block) (s : AuthState) : World × Except RunErr 
     let failedA := failedChecks cfg w2.facts CheckId.authorizer s.checks
     let failed0 := failedChecks cfg w2.facts (CheckId.block 0) authority.checks
     let pol := firstPolicy cfg w2.facts s.policies
-    let w3 : World := { w2 with rules := [] }
-    (w3, .ok { world := w3, failed := failedA ++ failed0, policy := pol })
+    -- the rules stay with the authorizer's world (authorizer.go: every block world is a clone
+    -- whose rules are reset; finding D28): a later Authorize or Query applies them again
+    (w2, .ok { world := { w2 with rules := [] }, failed := failedA ++ failed0, policy := pol })
 
 def policyVerdict : Option PolicyKind → Verdict
   | some .allow => .ok
